@@ -17,13 +17,16 @@ CHECKS = {
              "restart included), every implementation edge is checked against Step, and TLC explores the product of that "
              "graph with the ghost monitor (leg B); TLC-simulated behaviours with larger commitment numbers are replayed "
              "through the implementation and validated as traces (leg C). Exhaustive within the bounds; the right level "
-             "because the property quantifies over all request histories.",
+             "because the property quantifies over all request histories. Beyond the bound: HolderAbs.tla, an abstraction "
+             "of the holder side with unbounded commitment numbers, has an inductive invariant PROVED with TLAPS (38 "
+             "obligations) that implies C01 and C02, and TLC checks that Channel.tla refines it.",
         technique="TLA+ spec + TLC model checking; implementation state-graph extraction validated edge-by-edge and "
                   "monitored by TLC; simulated behaviours replayed and trace-validated"),
     "C02": dict(
         category="model_checking", design="DESIGN.md §4 C02, §9",
         text="Same machinery as C01 with the ghost monitor 'signed-for-broadcast and disclosed sets are disjoint; nothing "
-             "new is disclosed after the first holder signature', over all four signing entry points and both orders.",
+             "new is disclosed after the first holder signature', over all four signing entry points, mutual close, and "
+             "both orders; the TLAPS-proved abstraction HolderAbs.tla covers C02 for unbounded numbers as well.",
         technique="TLA+ spec + TLC model checking; implementation state-graph extraction validated edge-by-edge and "
                   "monitored by TLC; simulated behaviours replayed and trace-validated"),
     "C03": dict(
